@@ -108,7 +108,7 @@ def modelRun (t : Tables) (q : Query) : List CPage × String :=
     ([{ trunc := r.truncated, nk := none, ns := none, k := hexItems r.objects, d := [], c := r.cps }], "done")
   | "v1" | "v2" =>
     let (ps, e) := followObjectsHttp objectsFilter t.okeys q.pfx q.delim q.max q.km
-    (ps.map fun p => { trunc := p.truncated, nk := p.next, ns := none, k := hexItems p.objects, d := [], c := p.cps }, endStr e)
+    (ps.map fun p => { trunc := p.truncated, nk := p.next, ns := none, k := hexItems p.items, d := [], c := p.cps }, endStr e)
   | "sv" | "hv" =>
     let mv := if hasRow t.vrows then q.msub.getD 0 else 0
     let (ps, e) := followVersions versionsFilter t.vrows q.pfx q.delim (q.km.getD []) mv q.max
@@ -130,13 +130,13 @@ def modelRun (t : Tables) (q : Query) : List CPage × String :=
       | none => none
     let (ps, e) := followUploadsHttp uploadsFilter t.urows q.pfx q.delim q.max q.km mu
     (ps.map fun p => { trunc := p.truncated, nk := p.next.map (·.1), ns := p.next.map (·.2),
-                       k := rowItems p.uploads, d := [], c := p.cps }, endStr e)
+                       k := rowItems p.items, d := [], c := p.cps }, endStr e)
   | "sp" =>
     let (ps, e) := followPartsStorage t.parts q.max (q.msub.getD 0)
     (ps.map fun p => { trunc := p.truncated, nk := none, ns := p.next, k := p.parts.map toString, d := [], c := [] }, endStr e)
   | "hp" =>
     let (ps, e) := followPartsHttp t.parts q.max q.msub
-    (ps.map fun p => { trunc := p.truncated, nk := none, ns := p.next, k := p.parts.map toString, d := [], c := [] }, endStr e)
+    (ps.map fun p => { trunc := p.truncated, nk := none, ns := p.next, k := p.items.map toString, d := [], c := [] }, endStr e)
   | _ => ([], "unknown-op")
 
 /-! ### the judge -/
